@@ -86,6 +86,7 @@ def check(prop, tier, seed):
     items = common.choose_items(prop, tier, seed, n, mode_fraction=0.15)
     n_prov = 84 * (3 if tier == "quick" else 12)
     items += [provoked_case(seed, k) for k in range(n_prov)]
+    items += [{"v": k} for k in universe.boundary_indices()]     # boundary configurations, reversed ranges
     pairs = common.run_campaign(rep, items)
     counters, opts_seen = common.collect(rep, prop, pairs, lambda o: o["outcome"] in ("ok", "exception") and o["stats"].get("c09_fields_compared", 0) > 0)
     raised = sum(1 for _, o in pairs if o["outcome"] == "exception")
@@ -112,6 +113,8 @@ def check(prop, tier, seed):
     rep.extra.update({"fields_compared": counters["sum_c09_fields_compared"], "runs_that_raised": raised,
                       "shared_config_sequences": shared_ok})
     for item, obs in pairs[:2]:
+        if isinstance(item, dict) and "v" in item:
+            continue
         c = universe.case(item if isinstance(item, int) else item["i"]) if not (isinstance(item, dict) and "opt" in item) else item
         rep.sample({"optimizer": obs["opt"], "config": c["cfg"], "vars": c["spec"]["vars"], "outcome": obs["outcome"],
                     "fields_compared": obs["stats"].get("c09_fields_compared")})
